@@ -60,8 +60,8 @@ PROPS = {
                ('u_fprint', [r'::fmt$', r'^lemma_op_pieces$', r'^(fp_|join_|path_text|op_text)'], dict(one_spelling=True)),
                ('u_fgram', [r'^Parser::', r'^lemma_join_', r'^lemma_drop_last_push$'], dict(beyond_property='the token-grammar contract also rejects a parser that starts to accept text which is not a filter, about which the property is silent'))],
         kani=[],
-        witness='enum:filter-print-parse',
-        enums_thorough=['enum:filter-eval-exhaustive'],
+        witness=['enum:filter-print-parse', 'enum:random-filters'],
+        enums_thorough=['enum:filter-eval-exhaustive', 'enum:random-filters 20000'],
         design_ref='DESIGN.md section 4, C08',
         level_text=('Proof (Verus), parser side, token level (u_fgram): a specification tok_or / tok_and / tok_term of the token spelling of a filter tree is '
                     'written from the filter grammar -- an `or` is its operands separated by the token or, each operand an `and`: its terms separated by the '
@@ -122,7 +122,8 @@ PROPS = {
         kani=[dict(harness='k_kind_u8', klass='complete', schema=['u8'], family='kind-u8', target='HaystackKind::try_from(u8)'),
               dict(harness='k_kind_code_roundtrip', klass='complete', schema=['u8'], family='kind-u8', target='HaystackKind as u8'),
               dict(harness='k_kind_name_roundtrip', klass='complete', schema=['u8'], family='kind-name', target='HaystackKind <-> &str')],
-        witness='enum:kinds-grid',
+        witness=['enum:kinds-grid', 'enum:random-kinds-grid'],
+        enums_thorough=['enum:random-kinds-grid 20000'],
         design_ref='DESIGN.md section 4, C19',
         level_text=('Proof: Verus for all values (each of the 18 kind predicates equals kind_of(v) == K, exactly one is true, '
                     'From<&Value> for HaystackKind equals kind_of, each of the 20 TryFrom<&Value> conversions succeeds exactly for the '
@@ -144,7 +145,8 @@ PROPS = {
               dict(harness='k_number_units_partial_total', klass='complete', schema=['u8', 'u8', 'f64', 'f64'], family='number-units', target='Number partial_cmp/cmp with units'),
               dict(harness='k_coord_laws', klass='complete', schema=['f64'] * 6, family='coord-laws', target='Coord eq/cmp/partial_cmp'),
               dict(harness='k_coord_eq_hash', klass='complete', schema=['f64'] * 4, family='coord-hash', target='Coord eq/hash')],
-        witness='enum:eq-laws',
+        witness=['enum:eq-laws', 'enum:random-eq-laws'],
+        enums_thorough=['enum:random-eq-laws 600'],
         design_ref='DESIGN.md section 4, C12',
         level_text=('Proof (Kani/CBMC, bit-precise, complete over all non-NaN f64): for the hand-written Eq/Hash/Ord/PartialOrd of Number '
                     '(unit-less, and with units drawn from {none, m, s}) and Coord: == is an equivalence and a clone equals its original; '
@@ -194,8 +196,8 @@ PROPS = {
               dict(harness='k_json_scalar_traces', klass='complete', schema=['u8', 'f64', 'f64'], family=None, target='Serialize for Marker/Na/Remove/Coord/Symbol/Uri/Ref/XStr', one_spelling=True),
               dict(harness='k_json_number_exact', klass='complete', schema=['f64'], family='json-number', target='<Number as Serialize>::serialize'),
               dict(harness='k_json_number_unit_trace', klass='complete', schema=['f64'], family='json-number', target='<Number as Serialize>::serialize (with unit)', one_spelling=True)],
-        witness=['enum:hayson-roundtrip', 'enum:hayson-reference', 'enum:random-values'],
-        enums_thorough=['enum:random-values 40000'],
+        witness=['enum:hayson-roundtrip', 'enum:hayson-reference', 'enum:random-values', 'enum:random-hayson-spellings'],
+        enums_thorough=['enum:random-values 40000', 'enum:random-hayson-spellings 40000'],
         design_ref='DESIGN.md section 4, C05',
         level_text=('Proof (Verus, unbounded) of the writer side for every kind: jv_value is the Hayson table written from the specification as a '
                     'recursive function from values to JSON trees (null/bool/string as plain JSON; {"_kind":"marker"|"na"|"remove"}; ref with val and '
@@ -257,7 +259,7 @@ PROPS = {
                ('u_getters', [r'^parse_datetime$']),
                ('u_capi', [r'^haystack_value_get_datetime_date$', r'^haystack_value_get_datetime_time$'])],
         kani=[dict(harness='k_fixed_tz_utc_iff_zero', klass='complete', schema='raw', family='fixed-tz', target='timezone::fixed_timezone', timeout=600)],
-        witness=['enum:hayson-roundtrip', 'enum:zinc-escape', 'enum:rfc3339-offsets'],
+        witness=['enum:hayson-roundtrip', 'enum:zinc-escape', 'enum:rfc3339-offsets', 'enum:zones'],
         design_ref='DESIGN.md section 4, C06',
         level_text=('Proof (Kani/CBMC, complete over every offset text +-HH:MM with digits 0-9 0-9 : 0-5 0-9) for the one piece of this '
                     'property that is libhaystack\'s own code: fixed_timezone maps an RFC 3339 offset to the zone UTC exactly when the offset is '
